@@ -102,6 +102,7 @@ func (x *exec) verify(res *FuncResult) {
 	for _, r := range con.Requires {
 		x.assume(st, x.evalBool(r.E, env))
 	}
+	x.assumeLemmas(st, con, env)
 	st.reach = x.c.Define("reach.entry", "Bool", st.reach)
 	x.obligs = append(x.obligs, &Oblig{Base: "cover:requires", Kind: "cover", Func: fn.String(), Hyp: st.reach, Goal: "true", Cover: true, C: x.c,
 		pos: fn.Pos(), Pos: x.p.Fset.Position(fn.Pos())})
@@ -158,6 +159,19 @@ func (x *exec) verify(res *FuncResult) {
 				label = fmt.Sprint(i + 1)
 			}
 			g := x.evalBool(e.E, post)
+			if len(con.Splits) > 0 {
+				// finite case split done by the generator: one query per case plus the complement, so the
+				// conjunction of the cases is the unsplit obligation
+				sp := con.Splits[0]
+				sv := x.eval(sp.E, post, nil)
+				st := x.c.Convert(x.term(sv), sv.Typ, types.Typ[types.Int])
+				for k := sp.Lo; k <= sp.Hi; k++ {
+					x.oblig(fr, sr.clone(), "post", fmt.Sprintf("%s/case%d", label, k), fn.Pos(), Imp(Eq(st, x.c.ILit(int64(k))), g), e.Props)
+				}
+				out := Or(x.c.ICmp("<", st, x.c.ILit(int64(sp.Lo))), x.c.ICmp("<", x.c.ILit(int64(sp.Hi)), st))
+				x.oblig(fr, sr.clone(), "post", label+"/other", fn.Pos(), Imp(out, g), e.Props)
+				continue
+			}
 			// posts are independent obligations: do not assume earlier posts for later ones
 			s2 := sr.clone()
 			x.oblig(fr, s2, "post", label, fn.Pos(), g, e.Props)
@@ -467,4 +481,35 @@ func (x *exec) lookupLocal(fr *frame, s *State, name string, pos token.Pos, tp *
 		}
 	}
 	return nil
+}
+
+// assumeLemmas adds the lemmas named by `uses` as hypotheses. A lemma is a closed formula over spec
+// functions that is proved on its own (obligation `<pkg>#lemma:<name>`, same property), so using it
+// here is the ordinary lemma rule, not an assumption.
+func (x *exec) assumeLemmas(st *State, con *Contract, env *Env) {
+	for _, name := range con.Uses {
+		var lem *Lemma
+		for _, l := range x.p.Contracts.Lemmas {
+			if l.Name == name && (l.PkgPath == con.PkgPath || lem == nil) {
+				lem = l
+			}
+		}
+		if lem == nil {
+			fail("uses %s: no such lemma", name)
+		}
+		ok := false
+		for _, lp := range lem.Props {
+			for _, cp := range con.Props {
+				if lp == cp {
+					ok = true
+				}
+			}
+		}
+		if !ok {
+			fail("uses %s: the lemma is not proved under any property of this contract", name)
+		}
+		le := &Env{x: x, vars: map[string]*Val{}, st: st, pkg: x.p.typesPkg(lem.PkgPath), fnPkg: lem.PkgPath}
+		x.assume(st, x.evalBool(lem.E, le))
+		x.note("lemma %s (proved separately) used as a hypothesis", name)
+	}
 }
